@@ -33,10 +33,11 @@ C04_OPS = ["load_aligned", "load_unaligned", "store_aligned", "store_unaligned",
 C06_OPS = [o for o in entries.OPS if o.startswith("batch_cast_to_") or o.startswith("bitwise_cast_to_")] + ["to_int", "to_float"]
 
 C05_OPS = [o for o in entries.OPS if o.split("_")[0] in ("zip", "swizzle", "compress", "expand", "extract", "insert", "slide", "rotate")]
-C05_QUICK = ["zip_lo", "zip_hi", "swizzle_dyn", "compress", "expand", "extract_pair", "insert_0", "insert_3", "slide_left_1", "slide_left_3", "slide_left_4", "slide_right_1", "slide_right_7",
+C05_OPS.append("transpose")
+C05_QUICK = ["transpose", "zip_lo", "zip_hi", "swizzle_dyn", "compress", "expand", "extract_pair", "insert_0", "insert_3", "slide_left_1", "slide_left_3", "slide_left_4", "slide_right_1", "slide_right_7",
              "slide_right_8", "rotate_left_1", "rotate_left_3", "rotate_right_1"]
 
-C09_OPS = ["reduce_add", "reduce_max", "reduce_min"]
+C09_OPS = ["reduce_add", "reduce_max", "reduce_min", "haddp"]
 
 C16_OPS = ["cadd", "csub", "cneg", "cconj", "creal", "cimag", "ceq", "cneq"]
 
@@ -208,7 +209,8 @@ def finish(rep, pid, extra_cov=None, level_note=None):
     print("[%s] tier=%s functions=%d proved=%d obligations=%d discharged=%d undecided=%d infra=%d violations=%d known=%d wall=%.0fs"
           % (pid, rep.tier, cov["functions_under_contract"], cov["functions_proved"], cov["obligations"], cov["discharged"],
              len(rep.undecided), len(rep.infra), len(rep.violations), len(rep.known), ev["wall_s"]))
-    if exit_code == 0 and (rep.infra or unexpected_undecided(pid, rep)):
+    bad_undecided = unexpected_undecided(pid, rep)
+    if exit_code == 0 and (rep.infra or bad_undecided):
         exit_code = 2
         for i in rep.infra[:10]:
             print("INFRA: %s: %s" % (i["fn"][:120], i["detail"][:300]))
